@@ -19,6 +19,15 @@ def texts_of(tree, out):
     return out
 
 
+def q_elems(tree, out):
+    for n in tree:
+        if n.get("k") == "elem" and n.get("tag") == "q":
+            out.append(n)
+        for c in n.get("ch", []):
+            q_elems([c], out)
+    return out
+
+
 def check(res):
     """returns (found, n_eval, nontrivial, depth_hist, jobs_in)"""
     found = 0
@@ -54,6 +63,19 @@ def check(res):
                 if found <= 6:
                     res.violation("generated code throws: %s" % g["error"][:200], {"src": j["src"], "data": d})
                 break
+            # the same expression sits in every attribute family of each <q>: all raw-valued positions must agree, and so
+            # must all string-valued ones
+            for qn in q_elems(g["trees"][di], []):
+                at = dict((k, r.get("v")) for k, r in qn.get("attrs", []))
+                raw = [json.dumps(at.get(k), sort_keys=True) for k in ("m:m", "d:d", "r:p", "d:h")]
+                strs = [json.dumps(at.get(k), sort_keys=True) for k in ("i:", "c:", "y:")]
+                if len(set(raw)) > 1 or len(set(strs)) > 1:
+                    found += 1
+                    if found <= 6:
+                        res.violation("one expression written in several attribute families of one element is delivered with different "
+                                      "values (names resolved differently per position): mark/data:/property/data- = %s, id/class/style = %s; "
+                                      "template %s" % (raw, strs, j["src"][:300]), {"src": j["src"], "data": d, "attributes": at})
+                    break
             got = texts_of(g["trees"][di], [])
             want = dec_list(rf["value"])
             if len(want) > 2:
